@@ -178,6 +178,8 @@ pub fn lane_random_from(tier: Tier, seed: u64, start: usize, n: usize, tag: &str
                     sim,
                     pretty: false,
                     check: all_checks(),
+                    partner: None,
+                    turns: None,
                 }
             }
             Tier::Cli => {
@@ -296,6 +298,8 @@ pub fn lane_random_from(tier: Tier, seed: u64, start: usize, n: usize, tag: &str
                     sim,
                     pretty: false,
                     check: all_checks(),
+                    partner: None,
+                    turns: None,
                 }
             }
         };
@@ -370,6 +374,8 @@ pub fn lane_state(seed: u64, n: usize) -> Vec<Scenario> {
             sim,
             pretty: false,
             check: all_checks(),
+            partner: None,
+            turns: None,
         };
         fill_expectations(&mut sc, &mut g);
         out.push(sc);
@@ -458,6 +464,8 @@ pub fn lane_cli_bytes(seed: u64, n: usize) -> Vec<Scenario> {
             sim,
             pretty: false,
             check: vec!["C13".into(), "C05".into(), "C20".into()],
+            partner: None,
+            turns: None,
         });
     }
     out
@@ -603,6 +611,8 @@ pub fn lane_skip(seed: u64) -> Vec<Scenario> {
                             sim,
                             pretty: false,
                             check: all_checks(),
+                            partner: None,
+                            turns: None,
                         };
                         fill_expectations(&mut sc, &mut g);
                         out.push(sc);
@@ -764,6 +774,8 @@ pub fn lane_skip_interplay(seed: u64) -> Vec<Scenario> {
                 sim,
                 pretty: false,
                 check: all_checks(),
+                partner: None,
+                turns: None,
             };
             fill_expectations(&mut sc, &mut g);
             out.push(sc);
@@ -880,6 +892,8 @@ pub fn lane_env(seed: u64) -> Vec<Scenario> {
                         sim,
                         pretty: false,
                         check: all_checks(),
+                        partner: None,
+                        turns: None,
                     };
                     fill_expectations(&mut sc, &mut g);
                     out.push(sc);
@@ -923,6 +937,8 @@ pub fn lane_env(seed: u64) -> Vec<Scenario> {
                 sim,
                 pretty: false,
                 check: vec!["C18".into(), "C20".into()],
+                partner: None,
+                turns: None,
             };
             fill_expectations(&mut sc, &mut g);
             out.push(sc);
@@ -1041,6 +1057,8 @@ pub fn lane_runs(seed: u64) -> Vec<Scenario> {
                 sim,
                 pretty: false,
                 check: all_checks(),
+                partner: None,
+                turns: None,
             };
             fill_expectations(&mut sc, &mut g);
             out.push(sc);
@@ -1106,6 +1124,8 @@ pub fn lane_hard_failures(seed: u64) -> Vec<Scenario> {
                     sim,
                     pretty: false,
                     check: vec!["C20".into(), "C18".into()],
+                    partner: None,
+                    turns: None,
                 };
                 fill_expectations(&mut sc, &mut g);
                 out.push(sc);
@@ -1202,6 +1222,8 @@ pub fn lane_directory(seed: u64) -> Vec<Scenario> {
                 sim,
                 pretty: false,
                 check: vec!["C20".into(), "C05".into(), "C15".into(), "C18".into()],
+                partner: None,
+                turns: None,
             };
             fill_expectations(&mut sc, &mut g);
             out.push(sc);
@@ -1254,6 +1276,8 @@ pub fn lane_create(seed: u64) -> Vec<Scenario> {
                 sim,
                 pretty: false,
                 check: vec!["C18".into()],
+                partner: None,
+                turns: None,
             });
         }
     }
@@ -1306,6 +1330,8 @@ pub fn lane_script_limits(seed: u64) -> Vec<Scenario> {
                 sim,
                 pretty: false,
                 check: vec!["C14".into(), "C20".into(), "C05".into()],
+                partner: None,
+                turns: None,
             };
             fill_expectations(&mut sc, &mut g);
             out.push(sc);
@@ -1354,6 +1380,8 @@ pub fn lane_stream_layers(seed: u64) -> Vec<Scenario> {
                             sim,
                             pretty: false,
                             check: vec!["C05".into(), "C13".into(), "C20".into()],
+                            partner: None,
+                            turns: None,
                         };
                         fill_expectations(&mut sc, &mut g);
                         out.push(sc);
@@ -1406,6 +1434,8 @@ pub fn lane_cram_sizes(seed: u64) -> Vec<Scenario> {
                 sim,
                 pretty: false,
                 check: all_checks(),
+                partner: None,
+                turns: None,
             };
             fill_expectations(&mut sc, &mut g);
             out.push(sc);
@@ -1453,6 +1483,8 @@ pub fn lane_cram_sizes(seed: u64) -> Vec<Scenario> {
                 sim,
                 pretty: false,
                 check: vec!["C20".into(), "C05".into(), "C15".into(), "C13".into()],
+                partner: None,
+                turns: None,
             };
             fill_expectations(&mut sc, &mut g);
             out.push(sc);
@@ -1509,6 +1541,8 @@ pub fn lane_fs_faults(seed: u64) -> Vec<Scenario> {
                         sim,
                         pretty: false,
                         check: vec!["C18".into(), "C20".into(), "C05".into()],
+                        partner: None,
+                        turns: None,
                     };
                     fill_expectations(&mut sc, &mut g);
                     out.push(sc);
@@ -1637,6 +1671,8 @@ pub fn lane_cli_report_bytes(seed: u64) -> Vec<Scenario> {
                     sim,
                     pretty: false,
                     check: vec!["C05".into(), "C13".into(), "C20".into()],
+                    partner: None,
+                    turns: None,
                 };
                 fill_expectations(&mut sc, &mut g);
                 out.push(sc);
@@ -1663,6 +1699,8 @@ pub fn lane_cli_report_bytes(seed: u64) -> Vec<Scenario> {
                 sim,
                 pretty: false,
                 check: vec!["C05".into(), "C13".into(), "C20".into()],
+                partner: None,
+                turns: None,
             };
             fill_expectations(&mut sc, &mut g);
             out.push(sc);
@@ -1691,6 +1729,8 @@ pub fn lane_cli_report_bytes(seed: u64) -> Vec<Scenario> {
             sim,
             pretty: false,
             check: vec!["C05".into(), "C13".into(), "C20".into()],
+            partner: None,
+            turns: None,
         };
         fill_expectations(&mut sc, &mut g);
         out.push(sc);
@@ -1728,6 +1768,8 @@ pub fn lane_cli_report_bytes(seed: u64) -> Vec<Scenario> {
                 sim,
                 pretty: false,
                 check: vec!["C05".into(), "C13".into(), "C20".into()],
+                partner: None,
+                turns: None,
             };
             fill_expectations(&mut sc, &mut g);
             out.push(sc);
@@ -1778,6 +1820,8 @@ pub fn lane_pairing(seed: u64) -> Vec<Scenario> {
                     sim,
                     pretty: false,
                     check: all_checks(),
+                    partner: None,
+                    turns: None,
                 };
                 fill_expectations(&mut sc, &mut g);
                 out.push(sc);
@@ -1831,6 +1875,8 @@ pub fn lane_included_limits(seed: u64) -> Vec<Scenario> {
                         sim,
                         pretty: false,
                         check: vec!["C14".into(), "C20".into(), "C05".into()],
+                        partner: None,
+                        turns: None,
                     };
                     fill_expectations(&mut sc, &mut g);
                     out.push(sc);
@@ -1905,6 +1951,8 @@ pub fn lane_flood(seed: u64) -> Vec<Scenario> {
                 sim,
                 pretty: false,
                 check: vec!["C14".into(), "C13".into()],
+                partner: None,
+                turns: None,
             };
             fill_expectations(&mut sc, &mut g);
             out.push(sc);
@@ -1950,6 +1998,8 @@ pub fn lane_flood(seed: u64) -> Vec<Scenario> {
                         sim,
                         pretty: false,
                         check: vec!["C14".into()],
+                        partner: None,
+                        turns: None,
                     };
                     fill_expectations(&mut sc, &mut g);
                     out.push(sc);
@@ -2000,6 +2050,8 @@ pub fn lane_renderers(seed: u64) -> Vec<Scenario> {
                     sim,
                     pretty: true,
                     check: vec!["C20".into()],
+                    partner: None,
+                    turns: None,
                 };
                 fill_expectations(&mut sc, &mut g);
                 out.push(sc);
@@ -2053,11 +2105,40 @@ pub fn lane_script_partial(seed: u64) -> Vec<Scenario> {
                     sim,
                     pretty: false,
                     check: vec!["C13".into()],
+                    partner: None,
+                    turns: None,
                 };
                 fill_expectations(&mut sc, &mut g);
                 out.push(sc);
             }
         }
+    }
+    out
+}
+
+/// C18, "several scrut processes running at the same time": two scenarios of the environment /
+/// filesystem-fault lanes run as two real scrut processes on ONE temporary root (and one
+/// --work-directory when both use it), interleaved at their announced turn points by a
+/// seeded scheduler (runcli::run_duo). The modelled peer is switched off: the partner is real.
+pub fn lane_duo(seed: u64, n: usize) -> Vec<Scenario> {
+    let mut pool_a = lane_env(seed ^ 0xd0a);
+    pool_a.extend(lane_fs_faults(seed ^ 0xd0a));
+    let mut pool_b = lane_env(seed ^ 0xd0b);
+    pool_b.extend(lane_fs_faults(seed ^ 0xd0b));
+    let mut g = G::new(seed ^ 0xd00);
+    let mut out = vec![];
+    let (na, nb) = (pool_a.len(), pool_b.len());
+    for k in 0..n {
+        // (systematic walk through the first pool, drawn partner)
+        let mut a = pool_a[(k * 7 + 3) % na].clone();
+        let mut b = pool_b[g.below(nb as u64) as usize].clone();
+        a.sim.peer.clear();
+        b.sim.peer.clear();
+        a.lane = format!("duo/{}+{}", a.lane, b.lane);
+        a.check = vec!["C18".into()];
+        b.check = vec!["C18".into()];
+        a.partner = Some(Box::new(b));
+        out.push(a);
     }
     out
 }
